@@ -577,6 +577,22 @@ func (fv *FuncVC) specCall(x *SCall, sc *SpecScope) Val {
 			name := fmt.Sprintf("once$%s$r%s", sanitize(key), idx)
 			th.declConst(name, rs)
 			return Val{name, rs, rt}
+		case "string":
+			// string(x) of a value of a named string type
+			a := fv.specEval(x.Args[0], sc)
+			if a.S != SStr {
+				specFail("string(): only conversions between string types are supported in specs")
+			}
+			return Val{a.T, SStr, types.Typ[types.String]}
+		case "bitand":
+			// bitand(x, m): x & m for a literal power of two m
+			a := fv.specEval(x.Args[0], sc)
+			b := fv.specEval(x.Args[1], sc)
+			t, ok := bitTest(a.T, b.T)
+			if !ok {
+				specFail("bitand: the mask must be a literal power of two")
+			}
+			return Val{t, SInt, a.GoT}
 		case "second":
 			// second(f(...)): the second result of a pure two-result function
 			fv.specEval(x.Args[0], sc)
@@ -834,7 +850,16 @@ func (fv *FuncVC) specFuncApp(f *types.Func, recv *Val, args []Val, sc *SpecScop
 			ts[j] = a.T
 		}
 		fv.th.declFun(name, sorts, rs)
-		return Val{sx(name, ts...), rs, rt}
+		out := []Val{{sx(name, ts...), rs, rt}}
+		for ri := 1; ri < sig.Results().Len(); ri++ {
+			rrt := sig.Results().At(ri).Type()
+			rrs := fv.th.sortOf(rrt)
+			nm := fmt.Sprintf("%s$r%d", name, ri+1)
+			fv.th.declFun(nm, sorts, rrs)
+			out = append(out, Val{sx(nm, ts...), rrs, rrt})
+		}
+		fv.lastSpecResults = out
+		return out[0]
 	}
 	pkg := ""
 	if f.Pkg() != nil {
